@@ -11,19 +11,33 @@ def sha_dir(d, stem, fmt):
     return '|'.join(hashlib.sha256((Path(d) / f'{stem}.{s}').read_bytes()).hexdigest()[:32] for s in suf)
 
 
+_OBJS = {}      # one module OBJECT per module of the pool: serialising it again (in any format / optimise setting) reuses the object,
+                # as a caller holding a ProofExp would - the output must not depend on that
+
+
+def module_object(inp):
+    key = json.dumps([inp['kind'], inp.get('name'), inp.get('module')], sort_keys=True)
+    if key not in _OBJS:
+        if inp['kind'] == 'module':
+            import modules
+            _OBJS[key] = modules.shipped(inp['name'])
+        else:
+            import lemmas
+            from bridge import Bridge
+            _OBJS[key] = lemmas.build_module(Bridge(), inp['module'])
+    return _OBJS[key]
+
+
 def serialise(inp):
     from proof_generation.proof import OutputFormat
     with tempfile.TemporaryDirectory() as d:
         try:
             if inp['kind'] == 'module':
-                import modules
-                mod = modules.shipped(inp['name'])
+                mod = module_object(inp)
                 mod.serialize(Path(d) / 'm', OutputFormat.Binary if inp['fmt'] == 'binary' else OutputFormat.Pretty, inp['opt'])
                 return sha_dir(d, 'm', inp['fmt'])
             if inp['kind'] == 'recipe':
-                import lemmas
-                from bridge import Bridge
-                mod = lemmas.build_module(Bridge(), inp['module'])
+                mod = module_object(inp)
                 mod.serialize(Path(d) / 'm', OutputFormat.Binary if inp['fmt'] == 'binary' else OutputFormat.Pretty, inp['opt'])
                 return sha_dir(d, 'm', inp['fmt'])
             if inp['kind'] == 'mm':
